@@ -546,8 +546,24 @@ def in_scope_map_reaches_resolvers(ctx: Ctx) -> None:
         txt = func_text(bn, c)
         if txt.startswith("nodes.") or txt == "self.build_element_node":
             k += 1
-            args = {t for a in [*c.args, *[x.value for x in c.keywords]] for t in value_texts(bn, c, a)}
-            ctx.ob(f"build_node: {txt}(...) receives the element's ns_map", "ns_map" in args, at=bn, node=c, msg="a child node is built without the in-scope map")
+            args: set[str] = set()
+            opaque = False
+            for a in [*c.args, *[x.value for x in c.keywords]]:
+                if isinstance(a, ast.Starred) or (a in [x.value for x in c.keywords if x.arg is None]):
+                    inner = a.value if isinstance(a, ast.Starred) else a
+                    for leaf in leaves_at(bn, c, inner):
+                        if isinstance(leaf, (ast.Tuple, ast.List)):
+                            args |= {t for e in leaf.elts for t in value_texts(bn, getattr(leaf, "_xsa_at", None) or c, e)}
+                        elif isinstance(leaf, ast.Dict):
+                            args |= {t for e in leaf.values for t in value_texts(bn, c, e)}
+                        else:
+                            opaque = True
+                else:
+                    args |= value_texts(bn, c, a)
+            if "ns_map" not in args and opaque:
+                ctx.abstain(f"arguments of {txt}(...) in build_node (packed in a value of unknown shape)", at=bn)
+            else:
+                ctx.ob(f"build_node: {txt}(...) receives the element's ns_map", "ns_map" in args, at=bn, node=c, msg="a child node is built without the in-scope map")
         if txt == "ParserUtils.xsi_type":
             k += 1
             ctx.ob("build_node: xsi_type(attrs, ns_map)", P(bn, c, "attrs", "attrs") and P(bn, c, "ns_map", "ns_map"), at=bn, node=c, msg="xsi:type resolved with another map")
